@@ -148,7 +148,24 @@ theorem makeDetail_separated (src : List Nat) (offset : Nat) (spans : List Span)
     makeDetail src offset spans ret =
       some (let t := trimSpace (spliced spans.length (src.take offset) 0 spans); if t == ret then [] else t) := by
   have hs : slice src 0 offset = some (src.take offset) := by simp [slice, hoff]
-  simp only [makeDetail, hs]
+  have hin : ∀ s ∈ spans, s.b ≤ s.e := by
+    intro s hs'
+    have : ∀ (l : List Span) (le : Int), Separated le l → ∀ t ∈ l, t.b ≤ t.e := by
+      intro l
+      induction l with
+      | nil => intro _ _ t ht; cases ht
+      | cons x xs ih =>
+        intro le h t ht
+        simp only [List.mem_cons] at ht
+        rcases ht with rfl | ht
+        · exact h.2.1
+        · exact ih _ h.2.2 t ht
+    exact this spans (-1) hsep s hs'
+  have hfil : spans.filter (fun s => decide (s.b ≤ s.e) && decide (s.e ≤ offset)) = spans := by
+    rw [List.filter_eq_self]
+    intro s hs'
+    simp [hin s hs', hend s hs']
+  simp only [makeDetail, hs, hfil]
   rw [groupSpans_separated spans (-1) [] hsep]
   simp only [List.reverse_nil, List.nil_append, List.length_map]
   have hlen : (src.take offset).length = offset := by simp; omega
